@@ -92,11 +92,11 @@ def build_native():
             os.makedirs(outdir, exist_ok=True)
             shutil.copyfile(os.path.join(tgt, "release", "libbasilisp_native.so"), out + ".tmp")
             os.replace(out + ".tmp", out)
-            # prune old builds
+            # prune old builds (keep the 6 most recent: other checks / mutant runs may be using them)
             nd = os.path.join(WORK, "native")
-            for d in os.listdir(nd):
-                if d != rh:
-                    shutil.rmtree(os.path.join(nd, d), ignore_errors=True)
+            ds = sorted((d for d in os.listdir(nd) if d != rh), key=lambda d: os.path.getmtime(os.path.join(nd, d)))
+            for d in ds[:-6]:
+                shutil.rmtree(os.path.join(nd, d), ignore_errors=True)
     return "" if _same_file(out, installed) else out
 
 
@@ -140,11 +140,11 @@ def prepare(verbose=False):
             if p.returncode != 0 or "ok" not in p.stdout:
                 raise RuntimeError("basilisp does not start from the working tree:\n" + p.stdout[-4000:])
             open(os.path.join(pyc, ".warm"), "w").write(str(time.time()))
-            # prune older caches (keep the 2 most recent besides this one)
+            # prune older caches (keep the 8 most recent besides this one)
             pd = os.path.join(WORK, "pyc")
             ds = sorted((d for d in os.listdir(pd) if d != th),
                         key=lambda d: os.path.getmtime(os.path.join(pd, d)))
-            for d in ds[:-2]:
+            for d in ds[:-8]:
                 shutil.rmtree(os.path.join(pd, d), ignore_errors=True)
     if verbose:
         print(f"[repo] tree={th} native={'rebuilt:' + so if so else 'installed'} prepare={time.time()-t0:.1f}s",
